@@ -25,11 +25,11 @@ MODULES = ["TypelibModel.Props.C07", "TypelibModel.Props.Dispatch"]
 TABLES = True
 RULE = ("all cycle topologies over 1-3 classes, each recursive edge drawn from {Optional[X], list[X], dict[str, X], tuple[X, ...], "
         "X | None}, flavours dataclass / NamedTuple / plain, any class as root and any container of a cyclic class as root; "
-        "Optional[tuple[X, ...]] (empty tuple at the base: a falsy member that is not None), recursive aliases (type A = dict[str, A | int], list[A] | int); values of every depth 0..D (D = 12 quick, 150 thorough)")
+        "Optional[tuple[X, ...]] (empty tuple at the base: a falsy member that is not None), a bare alias of Optional[X] (value or string valued), recursive aliases (type A = dict[str, A | int], list[A] | int); values of every depth 0..D (D = 12 quick, 150 thorough)")
 ASSUMPTIONS = ["depth 150 stays below the interpreter's default recursion limit (each level costs several frames)"]
 TRUSTED = ["harness topology generator"]
 
-EDGES = ["optional", "list", "dict", "vartuple", "pipe", "nonefirst", "pipefirst", "direct", "optvartuple"]
+EDGES = ["optional", "list", "dict", "vartuple", "pipe", "nonefirst", "pipefirst", "direct", "optvartuple", "optalias"]
 
 
 def edge_ty(kind, target):
@@ -55,7 +55,7 @@ def edge_ty(kind, target):
 
 def wrap_val(kind, inner):
     """The field value holding `inner` (or the empty base when inner is None)."""
-    if kind in ("optional", "pipe", "nonefirst", "pipefirst", "direct"):
+    if kind in ("optional", "pipe", "nonefirst", "pipefirst", "direct", "optalias"):
         return inner
     if kind == "list":
         return ["l", [] if inner is None else [inner]]
@@ -119,6 +119,7 @@ def field_names(idx, edges, c):
 
 def build_prog(idx, n, edges, r):
     classes = []
+    aliases = {}
     for c in range(n):
         flavour = r.choice(["dataclass", "dataclass", "namedtuple", "plain", "typeddict"])
         # `when` needs conversion in both directions: a level passed through raw shows in the marshalled form
@@ -129,7 +130,14 @@ def build_prog(idx, n, edges, r):
             if s != c:
                 continue
             fn = names[j]
-            fields.append([fn, edge_ty(kind, d)])
+            if kind == "optalias":
+                # the field is annotated with a bare NAME for the Optional that closes the cycle (type Chain = Link | None)
+                an = f"OA{c}_{j}"
+                target = ["union", [["cls", d], ["none"]], {"sp": "optional"}]
+                aliases[an] = {"name": an, "module": f"vm_c07_{idx}", "kind": r.choice(["alias", "alias", "aliasstr"]), "target": target}
+                fields.append([fn, ["wrap", "alias", target, {"name": an}]])
+            else:
+                fields.append([fn, edge_ty(kind, d)])
             dv = wrap_val(kind, None)
             if kind == "direct" or flavour == "typeddict" or (flavour == "namedtuple" and isinstance(dv, list) and dv[0] in ("l", "d")):
                 continue  # required field
@@ -139,7 +147,7 @@ def build_prog(idx, n, edges, r):
         classes.append({"id": c, "name": f"N{c}", "qualname": f"N{c}", "module": f"vm_c07_{idx}", "kind": flavour, "opts": [],
                         "fields": fields, "required": [f[0] for f in fields if f[0] not in dn], "defaults": defaults,
                         "members": [], "mixin": "none"})
-    return {"classes": classes, "aliases": {}}
+    return {"classes": classes, "aliases": aliases}
 
 
 def deep_value(prog, edges, cls, depth, path_edge=None):
